@@ -3,10 +3,85 @@
 use crate::gen::{KindTag, G};
 use crate::program::*;
 
-pub fn insert_op2(_g: &mut G, id: Id, _k: KindTag, script: Script) -> Op {
-    Op::InsertPing { id, script }
+pub fn insert_op2(_g: &mut G, id: Id, k: KindTag, script: Script) -> Op {
+    match k {
+        KindTag::Executor => Op::InsertExecutor { id, script },
+        KindTag::Stream => Op::InsertStream { id, script },
+        _ => Op::InsertPing { id, script },
+    }
 }
 
-pub fn cause_op2(_g: &mut G, _id: Id, _k: KindTag) -> Option<Op> {
-    None
+pub fn cause_op2(g: &mut G, id: Id, k: KindTag) -> Option<Op> {
+    match k {
+        KindTag::Executor if g.rng.chance(1, 60) => {
+            let n = *g.rng.pick(&[1023u32, 1024, 1025, 2049]);
+            let base = g.next_id;
+            g.next_id += n;
+            Some(Op::ScheduleMany { exec: id, base, n })
+        }
+        KindTag::Executor => {
+            if g.tasks.is_empty() || g.rng.chance(1, 2) {
+                let task = g.fresh();
+                g.tasks.push(task);
+                let pendings = *g.rng.pick(&[0u32, 0, 1, 1, 2, 3]);
+                let mut script = Vec::new();
+                for _ in 0..=pendings {
+                    let mut ops = Vec::new();
+                    if g.rng.chance(1, 3) {
+                        ops.extend(g.cb_op(None, 2));
+                    }
+                    script.push(ops);
+                }
+                Some(Op::Schedule { exec: id, task, pendings, script })
+            } else {
+                let t = *g.rng.pick(&g.tasks.clone());
+                Some(Op::Wake(t))
+            }
+        }
+        KindTag::Stream => Some(if g.rng.chance(1, 8) { Op::StreamEnd(id) } else { Op::StreamPush(id) }),
+        _ => None,
+    }
+}
+
+pub fn adapter_op(g: &mut G) -> Option<Op> {
+    let have = !g.adapters.is_empty();
+    let r = g.rng.below(if have { 14 } else { 2 });
+    match r {
+        0 | 1 => {
+            let id = g.fresh();
+            let mut fd = match g.rng.below(5) {
+                0 => FdSpec::PipeR,
+                1 => FdSpec::PipeW,
+                _ => FdSpec::Sock,
+            };
+            if have && g.rng.chance(1, 4) {
+                let o = *g.rng.pick(&g.adapters.clone());
+                fd = if g.rng.chance(1, 2) { FdSpec::Released(o) } else if g.p.natural_faults { FdSpec::DupOf(o) } else { FdSpec::Released(o) };
+            } else if g.p.natural_faults && g.rng.chance(1, 10) {
+                fd = FdSpec::RegularFile;
+            }
+            g.adapters.push(id);
+            Some(Op::AdaptIo { id, fd, borrowed: false, blocking: g.rng.chance(1, 2) })
+        }
+        2..=5 => {
+            let ex: Vec<Id> = g.srcs.iter().filter(|s| s.1 == KindTag::Executor).map(|s| s.0).collect();
+            if ex.is_empty() {
+                let id = g.fresh();
+                g.srcs.push((id, KindTag::Executor, false));
+                return Some(Op::InsertExecutor { id, script: vec![] });
+            }
+            let exec = *g.rng.pick(&ex);
+            let adapter = *g.rng.pick(&g.adapters.clone());
+            let task = g.fresh();
+            g.tasks.push(task);
+            let total = *g.rng.pick(&[1u32, 7, 64, 300, 5000, 20000]);
+            let chunk = *g.rng.pick(&[1u32, 3, 16, 100, 4096, 9000]);
+            Some(Op::AdapterTask { exec, task, adapter, kind: g.rng.below(6) as u8, total, chunk, then: *g.rng.pick(&[0u8, 0, 1, 2]) })
+        }
+        6..=8 => Some(Op::AdapterPeerWrite(*g.rng.pick(&g.adapters.clone()), *g.rng.pick(&[1u32, 5, 64, 1000, 6000, 30000]))),
+        9 | 10 => Some(Op::AdapterPeerRead(*g.rng.pick(&g.adapters.clone()), *g.rng.pick(&[1u32, 64, 4096, 70000]))),
+        11 => Some(Op::AdapterPeerClose(*g.rng.pick(&g.adapters.clone()))),
+        12 => Some(Op::AdapterIntoInner(*g.rng.pick(&g.adapters.clone()))),
+        _ => Some(Op::AdapterDrop(*g.rng.pick(&g.adapters.clone()))),
+    }
 }
